@@ -18,3 +18,11 @@ Theorem C19_throttle_progress : forall n ops, 1 <= n -> wf (init n) ops ->
   ndone h = length (started h) -> started h = added h.
 Proof. exact throttle_progress. Qed.
 Print Assumptions C19_throttle_progress.
+
+(* Exactness: at every moment the number of requests sent is min(added, answered + N) - nothing waits while a
+   slot is free and nothing is sent beyond the limit. *)
+Theorem C19_throttle_exact : forall n ops, 1 <= n -> wf (init n) ops ->
+  let h := run n ops in
+  length (started h) = Nat.min (length (added h)) (ndone h + n).
+Proof. exact throttle_exact. Qed.
+Print Assumptions C19_throttle_exact.
